@@ -221,6 +221,17 @@ def _tag_loop_order_insensitive(mi, fn):
 class _:
     custom = staticmethod(_tag_loop_order_insensitive)
     note = "self-composition of the loop body over two distinct tags"
+    # at call sites (assumed, not derived from the body): name / rank / haplotype are worked out from the tags and kept
+    # in the namer, a new empty unloc list is started; the scaffold it is given is only read
+    params = {"self": SN, "scaffold": TRef("Scaffold"), "fragment_tags": TOpt(TSet(STR))}
+    defaults = {"fragment_tags": None}
+    result = NONE
+    modifies = staticmethod(lambda o: [("field", "ScaffoldNamer", f, o.self) for f in (
+        "current_scaffold_name", "current_rank", "current_haplotype", "unloc_n", "target_tags", "primary_haplotype", "unloc_scaffolds")]
+        + [("dict-maps", STR, STR), ("fresh-lists", TRef("Scaffold")), ("alloc",)])
+    raises = {e: (lambda o: True) for e in ("TaggingError", "ValueError", "IndexError")}
+    ensures = staticmethod(lambda o, n, res: z3.And(z3.Not(n.self.current_scaffold_name.is_none), n.self.unloc_scaffolds.z >= o.alloc, n.self.unloc_scaffolds.z < n.alloc,
+                                                     n.self.unloc_scaffolds.len == 0, n.self.unloc_n == 0))
 
 
 def _set_attributes(modules):
